@@ -76,8 +76,8 @@ PROPS = {
     'C08': {'jobs': [SDD, dict(E2E_SD, corpus_glob='e2e_*.ops')], 'assumptions': [
         'theorems are about the L0 model Sd (two established endpoints + packet histories); the model is replayed line by line against two real established associations (TestVerifShutdown: real readLoop and real Shutdown call, write loop stepped explicitly, timers fired explicitly)',
         'which DATA chunks a write-loop pass sends (cwnd, rwnd, MTU bundling, burst budget, T3 / fast-retransmit / RACK marks, stream scheduler) is an input of the model, quantified over in the theorems and read off the emitted packets in the replay',
-        'one DATA chunk per message; TSNs and acknowledgement points as offsets from the initial TSN (no wrap-around: C16); receive buffer never full, streams pre-opened, ackMode normal; no ABORT / RECONFIG / FORWARD-TSN / HEARTBEAT traffic',
-        'C08_shutdown_ok_implies_delivered_partial assumes the transport under the caller did not fail: Shutdown also returns nil when the local read loop ends (witness corpus/C08/known/sd_shutdown_nil_on_local_transport_failure.ops)',
+        'one DATA chunk per message; TSNs and acknowledgement points as offsets from the initial TSN (no wrap-around: C16); receive buffer never full, streams pre-opened, ackMode normal; ABORT only as sent by Abort(); no RECONFIG / FORWARD-TSN / HEARTBEAT traffic',
+        'C08_shutdown_ok_implies_delivered is full strength since the fix of D22 (Shutdown returns ErrShutdownIncomplete unless SHUTDOWN-ACK or SHUTDOWN-COMPLETE was received); transport failure, Close and Abort at any moment are operations of the model; a peer closed by an inbound ABORT reports EOF on its streams in the harness (the ABORT error in the real read loop)',
         'liveness theorems are for the explicit schedules named in Props/C08.lean (every message count), not for arbitrary fair schedules; the e2e shutdown scenarios sample the rest under virtual time',
         'one case (sd job) = one operation sequence from `sd new` to the next; (e2e job) = ' + E2E_RULE,
     ]},
